@@ -9,6 +9,7 @@ import (
 	"go/constant"
 	"go/token"
 	"go/types"
+	"os"
 	"strconv"
 	"strings"
 
@@ -35,14 +36,48 @@ func (e *SpecEnv) goal(x ast.Expr) (string, error) {
 	n := *e
 	n.pol = 1
 	e.fc.top.curSkolems = nil
-	return n.evalBool(x)
+	var sides []string
+	saved := e.fc.top.specSides
+	e.fc.top.specSides = &sides
+	r, err := n.evalBool(x)
+	e.fc.top.specSides = saved
+	if err != nil {
+		return "", err
+	}
+	return implies(and(sides...), r), nil
 }
 
 // assumption evaluates a clause that is to be assumed.
 func (e *SpecEnv) assumption(x ast.Expr) (string, error) {
 	n := *e
 	n.pol = -1
-	return n.evalBool(x)
+	var sides []string
+	saved := e.fc.top.specSides
+	e.fc.top.specSides = &sides
+	r, err := n.evalBool(x)
+	e.fc.top.specSides = saved
+	if err != nil {
+		return "", err
+	}
+	return and(append(sides, r)...), nil
+}
+
+// underBinder evaluates a quantifier body, scoping the side conditions inside the binder.
+func (e *SpecEnv) underBinder(x ast.Expr, universal bool) (string, error) {
+	var sides []string
+	saved := e.fc.top.specSides
+	if saved != nil {
+		e.fc.top.specSides = &sides
+	}
+	r, err := e.evalBool(x)
+	e.fc.top.specSides = saved
+	if err != nil {
+		return "", err
+	}
+	if universal {
+		return implies(and(sides...), r), nil
+	}
+	return and(append(sides, r)...), nil
 }
 
 func (e *SpecEnv) withPol(p int) *SpecEnv {
@@ -62,7 +97,39 @@ func (fc *fnCtx) specEnv(st *State, extra map[string]Val) *SpecEnv {
 	for a := range st.cells {
 		cellSet[a] = true
 	}
+	// lexical resolution: at position curPos, a name denotes the variable in scope there
+	lexical := map[string]token.Pos{}
+	if t.curPos.IsValid() && fc.fn.Pkg != nil {
+		if inner := fc.fn.Pkg.Pkg.Scope().Innermost(t.curPos); inner != nil {
+			seen := map[string]bool{}
+			for a := range cellSet {
+				if a.Comment == "" || seen[a.Comment] {
+					continue
+				}
+				seen[a.Comment] = true
+				if _, obj := inner.LookupParent(a.Comment, t.curPos); obj != nil {
+					lexical[a.Comment] = obj.Pos()
+				}
+				if os.Getenv("GOWP_DEBUG") != "" {
+					_, obj := inner.LookupParent(a.Comment, t.curPos)
+					fmt.Fprintf(os.Stderr, "lexical %s at %v -> %v (alloc pos %v)\n", a.Comment, fc.eng.fset.Position(t.curPos), obj, fc.eng.fset.Position(a.Pos()))
+				}
+			}
+		}
+	}
 	for _, a := range sortedAllocs(cellSet) {
+		if lp, ok := lexical[a.Comment]; ok && a.Pos().IsValid() && a.Pos() != lp {
+			// another variable of the same name is the one in scope
+			hasMatch := false
+			for b := range cellSet {
+				if b.Comment == a.Comment && b.Pos() == lp {
+					hasMatch = true
+				}
+			}
+			if hasMatch {
+				continue
+			}
+		}
 		v := st.cells[a]
 		if a.Comment == "" || a.Parent() != fc.fn {
 			continue
@@ -760,12 +827,13 @@ func (e *SpecEnv) evalCall(n *ast.CallExpr) (Val, error) {
 				sub.bound[k] = v
 			}
 			sub.bound[iv.Name] = Val{T: bn, Ty: types.Typ[types.Int]}
+			var body string
 			if !skolem {
 				e.fc.defs.inline++
-			}
-			body, err := sub.evalBool(n.Args[3])
-			if !skolem {
+				body, err = sub.underBinder(n.Args[3], id.Name == "forall")
 				e.fc.defs.inline--
+			} else {
+				body, err = sub.evalBool(n.Args[3])
 			}
 			if err != nil {
 				return Val{}, err
@@ -816,12 +884,14 @@ func (e *SpecEnv) evalCall(n *ast.CallExpr) (Val, error) {
 				sub.bound[iv.Name] = Val{T: bn, Ty: ty}
 				decls = append(decls, fmt.Sprintf("(%s %s)", bn, srt))
 			}
+			var body string
+			var err error
 			if !skolem {
 				e.fc.defs.inline++
-			}
-			body, err := sub.evalBool(n.Args[len(n.Args)-1])
-			if !skolem {
+				body, err = sub.underBinder(n.Args[len(n.Args)-1], isAll)
 				e.fc.defs.inline--
+			} else {
+				body, err = sub.evalBool(n.Args[len(n.Args)-1])
 			}
 			if err != nil {
 				return Val{}, err
